@@ -7,7 +7,7 @@ kkey_t in_key, in_gk; uint32_t in_ic, in_mask, in_ebc; unsigned in_n; unsigned i
 int in_kpos, in_gpos; _Bool in_collide, in_acquire;
 
 static void xv_retry_cut(void);
-#define XV_GOTO_RETRY do { xv_retry_cut(); XV_ASSUME(0); } while (0)   /* `goto retry` after grow(): cut, see h_emplace */
+#define XV_GOTO_RETRY xv_retry_cut()   /* `goto retry` after grow(): cut (ends with assume(false)), see h_emplace */
 #include "lowered.h"
 #include "spec.h"
 
@@ -18,24 +18,25 @@ static void havoc_cells(kcell_t* kc, vcell_t* vc, int node, _Bool occupied) {
 #ifdef XV_NT
   if (occupied) {
     /* node: constant */
-    g_node[node].data.first = nondet_u64(); g_node[node].data.second = nondet_u64(); node_retired[node] = 0;
-    *vc = &g_node[node]; *kc = XV_HASH(g_node[node].data.first);
-  } else { *vc = node_at(nondet_uint()); *kc = nondet_u64(); }
+    struct node* nd = NODE_C(node);
+    nd->data.first = nondet_key(); nd->data.second = nondet_val(); node_retired[node] = 0;
+    *vc = nd; *kc = XV_HASH(nd->data.first);
+  } else { *vc = node_at(nondet_uint()); *kc = nondet_kcell(); }
 #else
-  *kc = nondet_u64(); *vc = nondet_u64();
+  *kc = nondet_kcell(); *vc = nondet_val();
 #endif
 }
 static void build_state(int maxchain) {
   XV_ASSUME(NSLOT == bucket_item_count);
-  in_key = nondet_u64(); in_gk = nondet_u64(); in_value = nondet_u64();
+  in_key = nondet_key(); in_gk = nondet_key(); in_value = nondet_val();
   in_mask = nondet_u32(); in_ebc = nondet_u32(); in_ic = nondet_u32(); in_n = nondet_uint();
   XV_ASSUME(in_mask == XV_MASK && in_ebc <= XV_NEB && in_ic <= NSLOT && in_n <= (unsigned)maxchain);
   XV_ASSUME(in_n == 0 || in_ic == NSLOT);
   g_map.data_block = &g_blk; g_map.resize_lock = 0;
   g_blk.mask = XV_MASK; g_blk.bucket_count = XV_MASK + 1; g_blk.extension_bucket_count = in_ebc; g_blk.extension_buckets = g_eb; g_blk.bkts = g_bk;
   g_eb_base = nondet_uptr(); XV_ASSUME(g_eb_base % sizeof(extension_bucket) == 0 && g_eb_base < ((uintptr_t)1 << 62));
-  for (int i = 0; i < NN; ++i) { node_retired[i] = nondet_bool(); g_node[i].data.first = nondet_u64(); g_node[i].data.second = nondet_u64(); }
-  retire_count = 0; last_retired = 0; reclaim_of_null = 0; new_count = 0; factory_calls = 0; cb_count = 0; cb_cell = 0; eb_at_ok = 1; xv_threw = 0;
+  for (int i = 0; i < NN; ++i) { node_retired[i] = nondet_bool(); NODE_C(i)->data.first = nondet_key(); NODE_C(i)->data.second = nondet_val(); }
+  spec_ignore_retired = 0; retire_count = 0; last_retired = 0; reclaim_of_null = 0; new_count = 0; factory_calls = 0; cb_count = 0; cb_cell = 0; eb_at_ok = 1; xv_threw = 0;
   /* the bucket under test */
   hash_t h = XV_HASH(in_key);
 #if XV_MASK == 0
@@ -66,7 +67,7 @@ static void build_state(int maxchain) {
     g_eb[b].lock = 0; g_eb[b].head = 0;
     _Bool rev = nondet_bool();
     for (int j = 0; j < XV_EIC; ++j) { int jj = rev ? XV_EIC - 1 - j : j; int p = b * XV_EIC + jj;
-      if (role0[p] == R_FREE) { g_eb[b].items[jj].next = g_eb[b].head; g_eb[b].head = &g_eb[b].items[jj]; } }
+      if (role0[p] == R_FREE) { POOL_ITEM_C(p)->next = g_eb[b].head; g_eb[b].head = POOL_ITEM_C(p); } }
   }
   /* the bystander bucket: anything */
   if (g_other) {
@@ -75,7 +76,8 @@ static void build_state(int maxchain) {
   }
   XV_ASSUME(inv_B(g_B, maxchain));
   mon_prev_state = g_B->state; mon_version0 = BS_version(g_B->state);
-  mon_bad_slot_store = mon_bad_state_step = mon_bad_item_store = mon_bad_frame = mon_bad_order = mon_lock_dropped = 0;
+  mon_bad_slot_store = mon_bad_state_step = mon_bad_item_store = mon_bad_order = mon_lock_dropped = 0;
+  for (int p = 0; p < POOL; ++p) mon_next_store_v0[p] = 0;
   mon_state_stores = mon_unlocks = mon_slot_stores = mon_head_stores = 0;
 }
 static _Bool other_unchanged(void) {
@@ -122,7 +124,7 @@ static void check_removed(struct pre s, int expect_role_change) {
   /* the chain lost exactly one item iff there was a chain (the found item, or the first one which moved into the array); it went to its free list */
   if (in_n > 0) {
     int lost = (s.k.pos >= NSLOT) ? (int)in_c[s.k.pos - NSLOT] : (int)in_c[0];
-    role[lost] = R_FREE;
+    for (int p = 0; p < POOL; ++p) if (p == lost) { role[p] = R_FREE; XV_OBL("vhm.remove.version_bumped", !mon_next_store_v0[p]); }
   }
   XV_OBL("vhm.extract.pool", pool_ok(role) && eb_at_ok);
   XV_OBL("vhm.remove.version_bumped", version_delta(g_B->state) >= 1 && version_delta(g_B->state) <= 2);
@@ -146,9 +148,11 @@ void h_do_extract(void) {
   struct pre s = snapshot();
   gp_may_throw = 1;
   mon_on = 1; _Bool r = vhm_do_extract_real(&g_map, in_key, &res); mon_on = 0;
-  if (xv_threw) {
+  if (xv_threw) {          /* only NONTRIVIAL: the guard_ptr constructed in compare_key may throw (no free hazard pointer) */
     check_unchanged(s);
+#ifdef XV_NT
     XV_CANARY("extract.threw");
+#endif
     return;
   }
   XV_OBL("vhm.extract.iff_present", r == s.k.found);
@@ -163,11 +167,15 @@ void h_do_extract(void) {
     if (s.k.pos < NSLOT && in_n == 0 && s.k.pos != (int)in_ic - 1) XV_CANARY("extract.array_move_last");
     if (s.k.pos < NSLOT && in_n == 0 && s.k.pos == (int)in_ic - 1) XV_CANARY("extract.array_last");
     if (s.k.pos == NSLOT) XV_CANARY("extract.chain_first");
+#if XV_L >= 2
     if (s.k.pos > NSLOT) XV_CANARY("extract.chain_later");
+#endif
   } else {
     check_unchanged(s);
     if (in_ic == 0) XV_CANARY("extract.empty_bucket"); else XV_CANARY("extract.absent");
+#ifdef XV_NT
     if (in_collide) XV_CANARY("extract.absent_collision");
+#endif
   }
 }
 
@@ -189,9 +197,14 @@ void h_erase(void) {
   struct pre s = snapshot();
   mon_on = 1; _Bool r = vhm_erase(&g_map, in_key); mon_on = 0;
   XV_OBL("vhm.extract.iff_present", r == s.k.found);
-  check_retire(s, r);
+  check_retire(s, r); spec_ignore_retired = 1;
   if (r) { check_removed(s, 1); XV_CANARY("erase.removed"); }
-  else { check_unchanged(s); XV_CANARY("erase.absent"); if (in_collide) XV_CANARY("erase.absent_collision"); }
+  else {
+    check_unchanged(s); XV_CANARY("erase.absent");
+#ifdef XV_NT
+    if (in_collide) XV_CANARY("erase.absent_collision");
+#endif
+  }
 }
 void h_extract(void) {
   build_state(XV_L);
@@ -199,7 +212,7 @@ void h_extract(void) {
   struct pre s = snapshot();
   mon_on = 1; _Bool r = vhm_extract(&g_map, in_key, &acc); mon_on = 0;
   XV_OBL("vhm.extract.iff_present", r == s.k.found);
-  check_retire(s, r);
+  check_retire(s, r); spec_ignore_retired = 1;
   if (r) {
 #ifdef XV_NT
     /* extract keeps the accessor usable: it still names the removed node, which carries the removed value */
@@ -208,5 +221,87 @@ void h_extract(void) {
     XV_OBL("vhm.extract.iff_present", acc.v == s.k.val);
 #endif
     check_removed(s, 1); XV_CANARY("extract_api.removed");
-  } else { check_unchanged(s); XV_CANARY("extract_api.absent"); if (in_collide) XV_CANARY("extract_api.absent_collision"); }
+  } else {
+    check_unchanged(s); XV_CANARY("extract_api.absent");
+#ifdef XV_NT
+    if (in_collide) XV_CANARY("extract_api.absent_collision");
+#endif
+  }
+}
+
+/* ------------------------------------------------------------------ do_get_or_emplace<AcquireAccessor>(key, factory, callback)
+ * = emplace (AcquireAccessor false, callback ignores the accessor) and get_or_emplace(_lazy) (true, callback moves the accessor out).
+ * grow() is a contract stub: it releases the bucket (stores `state`) - proved for the real text by run grow - and may throw bad_alloc.
+ * `goto retry` after grow() is cut: at the cut the operation has changed nothing, holds no lock and will not touch the old bucket again,
+ * i.e. the state satisfies the precondition this harness starts from (with the new block grow published). */
+unsigned grow_calls; bucket_t* grow_bucket; bstate_t grow_state; _Bool grow_may_throw; unsigned stores_at_grow; struct pre g_pre; _Bool cut_reached;
+static void vhm_grow_stub(struct vhm* self, bucket_t* bucket_p, bstate_t state) {
+  grow_calls++; grow_bucket = bucket_p; grow_state = state;
+  A_STORE(bucket_p->state, state, mo_relaxed);            /* grow: "release the bucket lock" */
+  stores_at_grow = mon_state_stores;
+  if (grow_may_throw && nondet_bool()) xv_threw = XV_EXC_std__bad_alloc;
+}
+static void vhm_do_grow_stub(struct vhm* self) { }
+static void check_unchanged(struct pre s);
+static void xv_retry_cut(void) {
+  XV_OBL("vhm.emplace.retry_state", grow_calls == 1 && grow_bucket == g_B && grow_state == g_pre.B0.state && !xv_threw);
+  XV_OBL("vhm.emplace.retry_state", mon_state_stores == stores_at_grow);      /* the disabled unlocker does not write the bucket again */
+  check_unchanged(g_pre);
+  XV_OBL("vhm.emplace.retry_state", factory_calls == 0 && cb_count == 0 && new_count == 0);
+  XV_CANARY("emplace.grow_retry");
+  XV_ASSUME(0);
+}
+void h_emplace(void) {
+  build_state(XV_L);
+  in_acquire = nondet_bool();
+  struct pre s = snapshot(); g_pre = s;
+  factory_may_throw = 1; new_may_throw = 1; gp_may_throw = 1; grow_may_throw = 1; grow_calls = 0;
+  mon_on = 1; _Bool r = vhm_do_get_or_emplace(&g_map, in_acquire, in_key); mon_on = 0;
+  if (xv_threw) {
+    /* factory / new node / guard / grow threw: nothing inserted, nothing lost, the extension item (if one was taken) is back in its free list */
+    check_unchanged(s);
+    XV_OBL("vhm.emplace.iff_absent", cb_count == 0);
+    if (xv_threw == XV_EXC_factory) XV_CANARY("emplace.factory_threw");
+    if (xv_threw == XV_EXC_std__bad_alloc && grow_calls) XV_CANARY("emplace.grow_threw");
+#ifdef XV_NT
+    if (xv_threw == XV_EXC_std__bad_alloc && !grow_calls) XV_CANARY("emplace.new_threw");
+#endif
+    if (factory_calls && in_n == 0 && in_ic == NSLOT) XV_CANARY("emplace.threw_with_extension_item");
+    return;
+  }
+  XV_OBL("vhm.emplace.iff_absent", r == !s.k.found);
+  struct look k1 = lookup(g_B, in_key), g1 = lookup(g_B, in_gk);
+  XV_OBL("vhm.emplace.iff_absent", cb_count == 1 && factory_calls == (r ? 1u : 0u));
+  XV_OBL("vhm.ops.unlock", !BS_is_locked(g_B->state) && mon_unlocks == 1 && !mon_lock_dropped);
+  XV_OBL("vhm.remove.version_bumped", GUARANTEE_OK && version_delta(g_B->state) == 0);   /* an insertion needs no version bump, but must obey the guarantee */
+  XV_OBL("vhm.sync.release", !mon_bad_order);
+  XV_OBL("vhm.ops.frame", other_unchanged());
+  if (!r) {
+    /* found: get_or_emplace hands out the existing element and changes nothing */
+    check_unchanged(s);
+#ifdef XV_NT
+    if (in_acquire) XV_OBL("vhm.emplace.iff_absent", cb_acc.guard == s.k.cell);
+#else
+    if (in_acquire) XV_OBL("vhm.emplace.iff_absent", cb_acc.v == s.k.val);
+#endif
+    if (s.k.pos < NSLOT) XV_CANARY("emplace.found_array"); else XV_CANARY("emplace.found_chain");
+    return;
+  }
+  /* inserted: key -> the factory's value, every other key as before, Inv_B, exactly one free extension item consumed iff the array was full */
+  XV_OBL("vhm.emplace.iff_absent", k1.found && k1.val == in_value);
+  if (in_gk != in_key) XV_OBL("vhm.emplace.iff_absent", look_eq(g1, s.g));
+  XV_OBL("vhm.emplace.iff_absent", inv_B(g_B, XV_L + 1));
+  XV_OBL("vhm.emplace.iff_absent", (int)BS_item_count(g_B->state) + chain_len(g_B, XV_L + 1) == s.size0 + 1);
+  XV_OBL("vhm.emplace.iff_absent", cb_cell != 0 && item_val(*cb_cell) == in_value);     /* the callback sees the cell of the new element */
+#ifdef XV_NT
+  if (in_acquire) XV_OBL("vhm.emplace.iff_absent", cb_acc.guard == k1.cell && new_count == 1);
+#else
+  if (in_acquire) XV_OBL("vhm.emplace.iff_absent", cb_acc.v == in_value);
+#endif
+  {
+    int role[POOL]; int taken = 0;
+    for (int p = 0; p < POOL; ++p) { role[p] = role0[p]; if (role0[p] == R_FREE && in_chain(g_B, POOL_ITEM_C(p))) { role[p] = R_CHAIN; taken++; } }
+    XV_OBL("vhm.emplace.pool", pool_ok(role) && taken == (in_ic == NSLOT ? 1 : 0));
+  }
+  if (in_ic < NSLOT) XV_CANARY("emplace.array"); else if (in_n == 0) XV_CANARY("emplace.first_extension"); else XV_CANARY("emplace.extension");
 }
